@@ -32,8 +32,8 @@ RULE = ("fault enumeration on two real endpoints under a virtual clock (connecti
         "(calls answered, one call kept in flight), an robs vector mirror, a remote RwLock (read, committed write, write in flight behind a "
         "held read guard), two Lazy values; variants: chunk 16/64/16384, rtc spawn on/off, wires that deliver at once or one item per "
         "virtual millisecond; every call of the traffic phase is in flight at some cut point, 17..18 calls are pending when the fault "
-        "strikes late, 40 calls are started after both dispatchers have ended; quick: cut points sampled with a stride giving about 1500 "
-        "runs, thorough: every index x both wires x 5 kinds for 6 variants. A case is non-trivial if the fault fired; distinct = distinct "
+        "strikes late, 40 calls are started after both dispatchers have ended; quick: cut points sampled with a stride giving about 600 "
+        "runs, thorough: every index x both wires x 5 kinds for 4 consecutive variants (all combinations of rtc spawn, held read guard and wire latency, all three chunk sizes). A case is non-trivial if the fault fired; distinct = distinct "
         "(workload/variant, wire, index, kind).")
 TRUSTED_BASE = [
     "M_conn: arrival-gap arithmetic of the ping/timeout pair and the first-fault rule of the run loop (lean/RemocModel/Conn/Model.lean)",
@@ -129,9 +129,9 @@ def run(ctx, replay=None):
     elif replay:
         up_jobs = []
     else:
-        # quick: cut points sampled with a stride chosen for about 1500 runs; thorough: every cut point
-        up_jobs = [("up0", ["sweep", 2, 0, 1500], ctx.seed * 1000 + 30)] if quick else \
-                  [("up%d" % i, ["sweep", 2, 1], ctx.seed * 1000 + 30 + i) for i in range(3)]
+        # quick: cut points sampled with a stride chosen for about 600 runs; thorough: every cut point
+        up_jobs = [("up0", ["sweep", 2, 0, 600], ctx.seed * 1000 + 30)] if quick else \
+                  [("up0", ["sweep", 4, 1], ctx.seed * 1000 + 30)]
     for name, args, seed in up_jobs:
         rc, err, trace = ctx.harness("faultup", args, out_path=os.path.join(ctx.workdir, "%s.trace" % name), seed=seed)
         if rc != 0:
